@@ -329,14 +329,14 @@ func fieldCap(w int) uint64 {
 }
 
 type dcase struct {
-	Codec  cdc     `json:"codec"`
-	Wire   []piece `json:"wire"`
-	Cuts   []int   `json:"cuts"`
-	Fin    string  `json:"fin"`
-	K      int     `json:"k"`
-	Obs    []step  `json:"obs"`
+	Codec  cdc      `json:"codec"`
+	Wire   []piece  `json:"wire"`
+	Cuts   []int    `json:"cuts"`
+	Fin    string   `json:"fin"`
+	K      int      `json:"k"`
+	Obs    []step   `json:"obs"`
 	Expect [][2]int `json:"expect,omitempty"` // digests of the payloads a valid stream must decode to
-	Valid  bool    `json:"valid"`
+	Valid  bool     `json:"valid"`
 }
 
 func (d dcase) coq(id int) string {
